@@ -3114,23 +3114,22 @@ func backoffDelay(faults int64, initialDelay, maxDelay time.Duration) time.Durat
 		return 0
 	}
 
-	// time.Duration is an int64 nanosecond count, so 62 doublings of even the
-	// smallest positive delay (1ns << 62 ≈ 146 years) exceed any sane maxDelay
-	// and one more doubling overflows int64. Cap early rather than rely on the
-	// wraparound check below.
+	// time.Duration is an int64 nanosecond count: 63 doublings of even the
+	// smallest positive delay overflow it, so the product exceeds any maxDelay.
 	shift := faults - 1
-	if shift >= 62 {
+	if shift >= 63 {
 		return maxDelay
 	}
 
-	// a single shift can still wrap around for larger initial delays
-	// (e.g. 100ms << 40); a wrapped value is negative or huge, both clamp
-	delay := initialDelay << uint(shift)
-	if delay <= 0 || delay > maxDelay {
+	// initialDelay << shift exceeds maxDelay (or overflows int64) exactly when
+	// initialDelay > maxDelay >> shift. Compare before shifting: an overflowing
+	// product can wrap around to a small positive value (e.g. (1<<33+1)ns << 31
+	// is 1<<31 ns) that a check on the shifted value would let through.
+	if initialDelay > maxDelay>>uint(shift) {
 		return maxDelay
 	}
 
-	return delay
+	return initialDelay << uint(shift)
 }
 
 // childAddress returns the address of the given child actor provided the name
